@@ -135,6 +135,16 @@ static void doOp(World* w, const Op& o) {
     else
       P.pool->schedule([w, k, child]() { runTask(w, k, child, false); });
     ctl::note("subret", k);
+  } else if (o.op == "placed" || o.op == "pfq") {
+    int k = o.a;
+    bool fq = o.op == "pfq";
+    P.submitted.fetch_add(1);
+    ctl::note("sub", k, fq ? 1 : 0);
+    if (fq)
+      P.pool->schedulePlaced([w, k]() { runTask(w, k, 0, false); }, dispenso::ForceQueuingTag());
+    else
+      P.pool->schedulePlaced([w, k]() { runTask(w, k, 0, false); });
+    ctl::note("subret", k);
   } else if (o.op == "bulk") {
     int k = o.a, n = o.b;
     P.submitted.fetch_add(n);
